@@ -55,12 +55,15 @@ func BuildBodyStructure(rawMsg string) string {
 	// For non-multipart messages, return basic body structure
 	// Get message body
 	headerEnd := strings.Index(rawMsg, "\r\n\r\n")
+	sepLen := 4
 	if headerEnd == -1 {
+		// bare LF line endings: the separator is two bytes long
 		headerEnd = strings.Index(rawMsg, "\n\n")
+		sepLen = 2
 	}
 	body := ""
 	if headerEnd != -1 {
-		body = rawMsg[headerEnd+4:]
+		body = rawMsg[headerEnd+sepLen:]
 	}
 
 	// Get encoding
